@@ -984,8 +984,21 @@ fn rdata_reads_back(msg: &[u8], pos: usize, len: usize, v: &mc::rgen::Value) -> 
 fn part_values<T: Tgt + Send + Sync>(env: &Env, cfg: &Cfg<T>, vals: &[mc::rgen::Value]) {
     let sp = env.sh.sp;
     let ctx = env.sh.ctx;
-    vals.par_iter().for_each(|v| {
-        for context in 0..3usize {
+    vals.par_iter().enumerate().for_each(|(vi, v)| {
+        // contexts 3..=8: the same value pushed through each form a record can be handed over in
+        // ((name, class, ttl, data) tuples with Ttl or u32, class-less tuples, &Record, Record) with
+        // boundary TTLs and a class other than IN; every 4th value only
+        for context in 0..if vi % 4 == 0 { 9usize } else { 3usize } {
+            // (class, ttl) the value's record is expected to read back with
+            let (want_class, want_ttl): (u16, u32) = match context {
+                3 => (3, 0x8000_0000),
+                4 => (4, 0xFFFF_FFFF),
+                5 => (1, 0x7FFF_FFFF),
+                6 => (1, 0x8000_0001),
+                7 => (254, 0xFFFF_FFFE),
+                8 => (255, 0x8000_0000),
+                _ => (1, 77),
+            };
             let res = guard(|| -> Result<(), (String, String)> {
                 let mut b: B<T> = B::Q(MessageBuilder::from_target((cfg.make)()).map_err(|_| ("from_target".to_string(), "from_target failed".to_string()))?.question());
                 // (what we expect to read back in the answer section)
@@ -1013,11 +1026,16 @@ fn part_values<T: Tgt + Send + Sync>(env: &Env, cfg: &Cfg<T>, vals: &[mc::rgen::
                 plan.push(Some(0)); // sentinel: A a.
                 for it in plan {
                     let before = b.slice().to_vec();
-                    let rec = match it {
-                        Some(k) => sp[k].rec.clone(),
-                        None => Record::new(name(&[b"o", b"b", b"a"]), Class::IN, Ttl::from_secs(77), v.data.clone()),
+                    let owner = name(&[b"o", b"b", b"a"]);
+                    let (nb, r) = match (it, context) {
+                        (Some(k), _) => push_any(b, sp[k].rec.clone()),
+                        (None, 3) => push_gen(b, (owner, Class::from_int(want_class), Ttl::from_secs(want_ttl), v.data.clone())),
+                        (None, 4) => push_gen(b, (owner, Class::from_int(want_class), want_ttl, v.data.clone())),
+                        (None, 5) => push_gen(b, (owner, Ttl::from_secs(want_ttl), v.data.clone())),
+                        (None, 6) => push_gen(b, (owner, want_ttl, v.data.clone())),
+                        (None, 7) => push_gen(b, &Record::new(owner, Class::from_int(want_class), Ttl::from_secs(want_ttl), v.data.clone())),
+                        (None, _) => push_any(b, Record::new(owner, Class::from_int(want_class), Ttl::from_secs(want_ttl), v.data.clone())),
                     };
-                    let (nb, r) = push_any(b, rec);
                     b = nb;
                     match r {
                         Some(true) => exp.push(match it {
@@ -1051,8 +1069,8 @@ fn part_values<T: Tgt + Send + Sync>(env: &Env, cfg: &Cfg<T>, vals: &[mc::rgen::
                             }
                         }
                         Exp::Val(v) => {
-                            if !mc::wire::labels_eq_ci(&r.owner, &labels(&[b"o", b"b", b"a"])) || r.rtype != v.rtype || r.class != 1 || r.ttl != 77 {
-                                return Err(("fixed-fields-mismatch".into(), format!("record {i}: owner/type/class/ttl read back as {:?}/{}/{}/{}", r.owner, r.rtype, r.class, r.ttl)));
+                            if !mc::wire::labels_eq_ci(&r.owner, &labels(&[b"o", b"b", b"a"])) || r.rtype != v.rtype || r.class != want_class || r.ttl != want_ttl {
+                                return Err(("fixed-fields-mismatch".into(), format!("record {i}: owner/type/class/ttl read back as {:?}/{}/{}/{}, pushed with class {want_class} ttl {want_ttl}", r.owner, r.rtype, r.class, r.ttl)));
                             }
                             rdata_reads_back(octets, r.rdata_pos, r.rdata.len(), v).map_err(|e| ("rdata-mismatch".to_string(), format!("record {i}: {e}")))?;
                         }
@@ -1416,6 +1434,82 @@ fn part_parsed<T: Tgt + Send + Sync>(env: &Env, cfg: &Cfg<T>) {
     }
 }
 
+
+// ---------------------------------------------------------------------------
+// Part O: the OPT record of another message copied with OptBuilder::clone_from
+// (what proxies and the EDNS server middleware do). The OPT record's fixed
+// fields carry the UDP size (CLASS) and extended RCODE / version / flags (TTL):
+// every octet of them is data, top bits included.
+// ---------------------------------------------------------------------------
+fn part_opt_clone<T: Tgt + Send + Sync>(env: &Env, cfg: &Cfg<T>) {
+    let ctx = env.sh.ctx;
+    let sp = env.sh.sp;
+    let sizes: [u16; 4] = [0, 512, 0x8000, 0xFFFF];
+    let ttls: [u32; 7] = [0, 0x0000_8000, 0x0100_0000, 0x7FFF_FFFF, 0x8000_0000, 0xABCD_8001, 0xFFFF_FFFF];
+    let optsets: [&[u8]; 3] = [&[], &[0, 3, 0, 2, b'a', b'b'], &[0xFD, 0xE9, 0, 0, 0, 12, 0, 3, 9, 9, 9]];
+    for size in sizes {
+        for ttl in ttls {
+            for (oi, opts) in optsets.iter().enumerate() {
+                let mut src = vec![0, 1, 0x80, 0, 0, 0, 0, 0, 0, 0, 0, 1, 0, 0, 41];
+                src.extend(size.to_be_bytes());
+                src.extend(ttl.to_be_bytes());
+                src.extend((opts.len() as u16).to_be_bytes());
+                src.extend_from_slice(opts);
+                let res = guard(|| -> Result<(), (String, String)> {
+                    let lm = Message::from_octets(&src[..]).map_err(|_| ("harness".to_string(), "source too short".to_string()))?;
+                    let optrec = lm.opt().ok_or(("source-unreadable".to_string(), "Message::opt() does not find the OPT record of the source".to_string()))?;
+                    let b: B<T> = B::Q(MessageBuilder::from_target((cfg.make)()).map_err(|_| ("from_target".to_string(), "from_target failed".to_string()))?.question());
+                    let (b, _) = apply(b, Op::Q(0), sp);
+                    let (b, _) = apply(b, Op::Goto(3), sp);
+                    let before = b.slice().to_vec();
+                    let (b, ok) = match b {
+                        B::Ar(mut x) => {
+                            let r = x.opt(|o| o.clone_from(&optrec)).is_ok();
+                            (B::Ar(x), r)
+                        }
+                        other => (other, false),
+                    };
+                    env.sh.transitions.fetch_add(1, AO::Relaxed);
+                    let octets = b.slice();
+                    if !ok {
+                        if octets != &before[..] {
+                            return Err(("failed-push-changed-message".into(), "a refused OPT changed the message octets".into()));
+                        }
+                        return Ok(());
+                    }
+                    let raw = read_message(octets).map_err(|e| ("unparseable".to_string(), format!("independent reader fails: {e}")))?;
+                    if raw.end != octets.len() || raw.counts != [1, 0, 0, 1] {
+                        return Err(("header-counts".into(), format!("counts {:?}, end {} of {}", raw.counts, raw.end, octets.len())));
+                    }
+                    let r = &raw.sections[2][0];
+                    if !r.owner.is_empty() || r.rtype != 41 || r.class != size || r.ttl != ttl || r.rdata != *opts {
+                        return Err(("opt-fields-mismatch".into(), format!("OPT copied with clone_from reads back as class(udp size) {} ttl(ext-rcode/version/flags) {:#010x} rdata {}, the source has {} {:#010x} {}", r.class, r.ttl, hex(&r.rdata), size, ttl, hex(opts))));
+                    }
+                    if let Some(f) = cfg.stream {
+                        let s = f(b.target());
+                        if s.len() < 2 || usize::from(u16::from_be_bytes([s[0], s[1]])) != s.len() - 2 || &s[2..] != octets {
+                            return Err(("stream-shim".into(), "length prefix differs from the message length".into()));
+                        }
+                    }
+                    Ok(())
+                });
+                env.stats.eval();
+                env.stats.distinct(fnv(format!("O|{}|{size}|{ttl}|{oi}", cfg.name).as_bytes()));
+                let case = || json!({"config": cfg.name, "part": "opt-clone_from", "source_octets": hex(&src)});
+                match res {
+                    Ok(Ok(())) => {}
+                    Ok(Err((kind, what))) => {
+                        ctx.violation(&format!("C02|opt-clone_from|{kind}"), &format!("{what} [on {}]", cfg.name), case());
+                    }
+                    Err(p) => {
+                        ctx.violation(&format!("C02|opt-clone_from|panic|{}", panic_class(&p)), &p, case());
+                    }
+                }
+            }
+        }
+    }
+}
+
 struct Timer(&'static str, std::time::Instant);
 impl Drop for Timer {
     fn drop(&mut self) {
@@ -1481,6 +1575,8 @@ fn go<T: Tgt + Send + Sync>(env: &Env, cfg: &Cfg<T>) {
     part_values(env, cfg, env.vals);
     // part P: records and questions parsed from other messages
     part_parsed(env, cfg);
+    // part O: OPT records copied from other messages
+    part_opt_clone(env, cfg);
     env.total_tr.fetch_add(env.sh.transitions.load(AO::Relaxed) - before, AO::Relaxed);
 }
 
